@@ -102,6 +102,7 @@ type interpreter struct {
 	stubs     map[string]bool
 	bounds    map[string]bool
 	chanSeq   int
+	panicStack []string
 	pcHash    [2]uint64
 	natives   map[*value]interface{}
 	timers    map[*value]*vtimer
@@ -407,6 +408,7 @@ func (i *interpreter) runPath(prefix []Decision) (res PathResult) {
 			case *targetPanic:
 				res.Outcome = "panic"
 				res.Msg = toString(p.v) + " @ " + p.site
+				i.panicStack = p.stack
 				i.reportOutcome("panic", "", p.site, panicMessage(p))
 			default:
 				res.Outcome = "engine"
@@ -847,7 +849,9 @@ func (i *interpreter) mkViolation(kind, id, site string, m map[string]uint64, kn
 	v := Violation{Kind: kind, AssertID: id, Site: site, Known: known}
 	v.Nondet = i.replayVals(m)
 	v.Decisions = append([]Decision(nil), i.trace...)
-	if i.curFrame != nil {
+	if kind == "panic" && i.panicStack != nil {
+		v.Stack = i.panicStack
+	} else if i.curFrame != nil {
 		v.Stack = i.curFrame.stack(12)
 		if site == "" {
 			v.Site = i.curFrame.site()
